@@ -1,5 +1,5 @@
 //! natively evaluated ground facts about `impl From<&str> for Square` (ledger sq_literals: the axioms in
-//! vx/prelude/board_leaf.rs) -- child module of board::square
+//! vx/prelude/pb_view.rs, zkey_model.rs, square_lits.rs) -- child module of board::square
 use super::*;
 
 #[test]
